@@ -137,11 +137,14 @@ def add(kind, b, it):
     elif kind == "events":
         b.events.append(it)
     elif kind == "emg":
-        b.addSignal(it)
+        CHAN[0] += 1
+        b.addSignal(it, channel=300 + CHAN[0]) if CHAN[0] % 2 else b.addSignal(it)
     elif kind in ("data3d", "force3d"):
         b.add_track(it)
     else:
-        b.add_platform(it)
+        # explicit channels that differ from block to block (an item shared by two blocks sits on different channels there)
+        CHAN[0] += 1
+        b.add_platform(it, channel=300 + CHAN[0]) if CHAN[0] % 2 else b.add_platform(it)
 
 
 def remove(kind, b, k):
@@ -172,6 +175,7 @@ def items_of(kind, b):
 
 
 PROFILE = None
+CHAN = [0]
 
 
 def random_action(rng, n_insts):
